@@ -412,4 +412,73 @@ def writeDBInPlace (isMinusOne : α → Bool) (old : Option (List (DbTable α)))
 def fsWrite (fs : List (Str × Table α)) (outs : List (FileOut α)) : List (Str × Table α) :=
   outs.foldl (fun fs f => (f.name, f.table) :: fs.filter (fun e => e.1 != f.name)) fs
 
+/-! ### glue for the regenerated decision tables (`Aegean/Generated/C18.lean`, written by the translator from
+    the tree under test).  The regenerated functions are PARAMETERS here (the generated file may import this
+    one for its `…Hand` fall-backs); `Properties/C18.lean` instantiates them with `Gen.C18.*`. -/
+
+/-- class code handed to the regenerated `classifyWhich`: other 0, SimpleSource 1, IslandSource 2, ComponentSource 3 -/
+def Cls.code : Cls → Nat
+  | .other => 0 | .simple => 1 | .island => 2 | .component => 3
+
+/-- python type tag handed to the regenerated `fitsLetter/fitsWidth/sqlCode`: bool 0, int 1, float 2, str 3, other 4 -/
+def Val.tag : Val α → Nat
+  | .bool _ => 0 | .int _ => 1 | .flt _ => 2 | .nan => 2 | .str _ => 3 | _ => 4
+
+/-- numpy dtype kind code of a (unified) column: U 3; i 1; f 2; b 0; O 5 -/
+def colKind (col : List (Val α)) : Nat :=
+  if isStrCol col then 3
+  else if col.isEmpty then 5
+  else if col.all (fun v => v.tag == 1) then 1
+  else if col.all (fun v => v.tag == 2) then 2
+  else if col.all (fun v => v.tag == 0) then 0
+  else 5
+
+/-- TFORM from (ASCII code of the letter, repeat count) -/
+def decodeFmt (letter width : Nat) : Option Fmt :=
+  if letter = 76 then some .L else if letter = 74 then some .J else if letter = 69 then some .E
+  else if letter = 65 then some (.A width) else Option.none
+
+/-- `writeFITSTable`'s decision for one column, assembled from the regenerated table -/
+def columnFmtG (letterF widthF : Nat → Nat → Nat → Nat → Nat → Nat → Nat) (name : Str) (col : List (Val α)) :
+    Option Fmt :=
+  let isErr := if errPrefix.isPrefixOf name then 1 else 0
+  let isUuid := if name = uuidName then 1 else 0
+  let first := col.head?.getD .none
+  decodeFmt (letterF isErr isUuid (colKind col) (maxLen col) first.tag first.strLen)
+            (widthF isErr isUuid (colKind col) (maxLen col) first.tag first.strLen)
+
+def decodeSql (c : Nat) : Option Str :=
+  if c = 0 then some "BOOL".toList else if c = 1 then some "INT".toList else if c = 2 then some "FLOAT".toList
+  else if c = 3 then some "VARCHAR".toList else Option.none
+
+def sqlTypeG (codeF : Nat → Nat) (v : Val α) : Option Str := decodeSql (codeF v.tag)
+
+/-- one iteration of `classify_catalog`, driven by the regenerated table (1, 2, 3 = position in the returned tuple) -/
+def classifyStepG (whichF : Nat → Nat) (acc : List (Src α) × List (Src α) × List (Src α)) (s : Src α) :
+    List (Src α) × List (Src α) × List (Src α) :=
+  let w := whichF s.cls.code
+  if w = 1 then (acc.1 ++ [s], acc.2.1, acc.2.2)
+  else if w = 2 then (acc.1, acc.2.1 ++ [s], acc.2.2)
+  else if w = 3 then (acc.1, acc.2.1, acc.2.2 ++ [s])
+  else acc
+
+def classifyG (whichF : Nat → Nat) (cat : List (Src α)) : List (Src α) × List (Src α) × List (Src α) :=
+  cat.foldl (classifyStepG whichF) ([], [], [])
+
+/-! hand fall-backs (used by the generated file only when the slicer or translator reports UNTRANSLATABLE) -/
+
+set_option linter.unusedVariables false
+
+def fitsLetterHand (is_err is_uuid kind maxlen t vlen : Nat) : Nat :=
+  if is_err = 1 then 69 else if kind = 3 ∨ kind = 4 then 65
+  else if t = 0 then 76 else if t = 1 then 74 else if t = 2 then 69 else 65
+
+def fitsWidthHand (is_err is_uuid kind maxlen t vlen : Nat) : Nat :=
+  if is_err = 1 then 0 else if kind = 3 ∨ kind = 4 then max 1 maxlen
+  else if t = 0 then 0 else if t = 1 then 0 else if t = 2 then 0 else if t = 3 then vlen else 5
+
+def sqlCodeHand (t : Nat) : Nat := if t = 0 then 0 else if t = 1 then 1 else if t = 2 then 2 else 3
+
+def classifyWhichHand (c : Nat) : Nat := if c = 3 then 1 else if c = 2 then 2 else if c = 1 then 3 else 0
+
 end Aegean.Model.C18
